@@ -241,8 +241,11 @@ def run(ctx: Ctx):
            f"the feature axis): a mask of the documented shape fails to broadcast, or - when batch size equals the number "
            f"of heads - masks the wrong cells", rel, sha[0].lineno, sample=dict(unsqueeze=got_axis, head_axis=head_axis_in_scores))
     ret = [st for st, _ in rdm.return_envs][-1]
-    okmerge = isinstance(ret.value, ast.Call) and u(ret.value.func) == "self.WC" and isinstance(ret.value.args[0], ast.Name) and any(
-        u(d.value).endswith(".flatten(-2)") for d in rdm.defs_of(ret.value.args[0]))
+    from sa.inline import Inliner as _InlM
+    rv_ = _InlM(mf.node, rdm, max_depth=2).expand(ret.value)  # `cat = cat.flatten(-2); return self.WC(cat)` or in one expression
+    a0 = rv_.args[0] if isinstance(rv_, ast.Call) and u(rv_.func) == "self.WC" and len(rv_.args) == 1 and not rv_.keywords else None
+    okmerge = isinstance(a0, ast.Call) and ((isinstance(a0.func, ast.Attribute) and a0.func.attr == "flatten" and [u(x) for x in a0.args] in (["-2"], ["-2", "-1"]))
+                                            or (call_name(a0) == "torch.flatten" and [u(x) for x in a0.args[1:]] in (["-2"], ["-2", "-1"])))
     col.ob("G13", "S4", f"{rel}::MultiHeadedAttention.forward::heads-concatenated-then-WC", okmerge,
            f"the result `{u(ret.value)}` is not WC applied to the heads flattened over the last two axes", rel, ret.lineno)
     _masked_values_excluded_by_selection(ctx)
@@ -280,9 +283,14 @@ def _masked_values_excluded_by_selection(ctx: Ctx):
         raise AnalysisError(f"C20: expected one weight * value product in GlobalSoftAttention.forward, found {len(prods)}")
     vn = [x for x in ast.walk(prods[0]) if isinstance(x, ast.Name) and x.id == vname][0]
     der = rd.derives(vn)
-    cleared = any(isinstance(c.func, ast.Attribute) and c.func.attr in ("masked_fill", "masked_fill_", "where") and
-                  any(isinstance(x, ast.Name) and x.id == mname for x in ast.walk(c)) or
-                  (call_name(c) == "torch.where" and any(isinstance(x, ast.Name) and x.id == mname for x in ast.walk(c)))
+    from sa.inline import Inliner
+    inl = Inliner(f.node, rd, keep={vname})
+
+    def _by_mask(c):  # the selection is by the mask, directly or through a named view of it (`keep = mask.unsqueeze(-1)`)
+        return any(isinstance(x, ast.Name) and x.id == mname for a in list(c.args) + [k.value for k in c.keywords]
+                   for x in ast.walk(inl.expand(a)))
+    cleared = any((isinstance(c.func, ast.Attribute) and c.func.attr in ("masked_fill", "masked_fill_", "where") and _by_mask(c)) or
+                  (call_name(c) == "torch.where" and _by_mask(c))
                   for c in der.calls())
     col.ob("G20", "S5", f"{rel}::GlobalSoftAttention.forward::masked-values-cleared-before-the-weighted-sum", cleared,
            f"`{u(prods[0])}` excludes masked positions only through their zero weight; a non-finite value there (uninitialised or "
